@@ -325,6 +325,17 @@ def rule_c04_clone(ctx):
         if 'Choice' not in q:
             loops = [n for n in walk_own(f.node) if isinstance(n, ast.For) and '_componentValues' in norm(n.iter)]
             ok = ok and len(loops) == 1
+            if loops:
+                it = norm(loops[0].iter)
+                keyed = it in ('self._componentValues.items()', 'enumerate(self._componentValues)')
+                # the dict-shaped store (SEQUENCE OF) is keyed by position: enumerate(values()) would renumber by insertion order
+                if 'SequenceOfAndSetOfBase' in q:
+                    keyed = it in ('self._componentValues.items()', 'sorted(self._componentValues.items())')
+                pos = loops[0].target.elts[0].id if isinstance(loops[0].target, ast.Tuple) else None
+                same = all(norm(c.args[0]) == pos for c in stores if c.args)
+                ctx.ob('C04.clone', f, 'components are copied to the position they are stored at', keyed and same,
+                       'loop `for %s in %s`; positions passed to the clone: %s' % (norm(loops[0].target), it, [norm(c.args[0]) for c in stores if c.args]),
+                       node=loops[0])
         ctx.ob('C04.clone', f, 'every stored component copied; constructed ones cloned with cloneValueFlag', ok,
                'deep=%d shallow=%d stores=%d' % (len(deep), len(shallow), len(stores)))
     f = ctx.func('type.base.ConstructedAsn1Type.clone')
@@ -360,7 +371,14 @@ def rule_c10(ctx):
             raise AnalysisError('record/collection loops not told apart in %s' % f.short)
 
         def is_req(n):
-            return n.kind == 'test' and 'requiredComponents.issubset(' in norm(n.ast.test) and _raising_branch(n) is not None
+            if n.kind != 'test' or 'requiredComponents.issubset(' not in norm(n.ast.test) or _raising_branch(n) != 'true':
+                return False
+            t = n.ast.test
+            # the raise must not be made conditional on anything else: `not X.issubset(Y)` alone or as a disjunct
+            def neg_subset(e):
+                return isinstance(e, ast.UnaryOp) and isinstance(e.op, ast.Not) and isinstance(e.operand, ast.Call) and \
+                    norm(e.operand.func).endswith('requiredComponents.issubset')
+            return neg_subset(t) or (isinstance(t, ast.BoolOp) and isinstance(t.op, ast.Or) and any(neg_subset(v) for v in t.values))
         reqs = [n for n in cfg.stmt_nodes() if is_req(n)]
         ok = bool(reqs) and not _feasible_with(cfg, rec[0], Y, reqs, {'namedTypes': True})
         ctx.ob('C10.req', f, 'record exit: required components present (schema with components)', ok,
@@ -665,6 +683,10 @@ def rule_c14(ctx):
                     recorded = True
                 if isinstance(n, ast.Call) and norm(n.func) == 'self.__class__' and any(norm(a) == 'self' for a in n.args):
                     recorded = True
+        rets_ok = all(isinstance(r.value, ast.Call) and any(isinstance(x, ast.Name) and x.id == f.params()[1] for x in ast.walk(r.value))
+                      for r in walk_own(f.node) if isinstance(r, ast.Return))
+        ctx.ob('C14.vmap', f, 'every result of adding a constraint contains that constraint', rets_ok,
+               'a return path hands back a set without the added constraint (the derived type silently loses it)' if not rets_ok else 'ok')
         ctx.ob('C14.vmap', f, 'derived set keeps the member constraints and records the set it was derived from',
                members and recorded, 'members carried over: %s; receiver recorded in the derived set\'s value map: %s' % (members, recorded))
     f = ctx.func('type.constraint.AbstractConstraintSet._setValues')
@@ -740,6 +762,22 @@ def rule_a6_spec(ctx):
         if len(ws) != 1:
             raise AnalysisError('record loop not found in %s' % f.short)
         return ws[0]
+    def preamble(f):
+        out = {}
+        lp = recloop(f)
+        for n in walk_own(f.node):
+            if isinstance(n, ast.Assign) and len(n.targets) == 1 and isinstance(n.targets[0], ast.Name) and \
+                    n.targets[0].id in ('namedTypes', 'isSetType', 'isDeterministic') and n.lineno < lp.lineno:
+                out[n.targets[0].id] = norm(n.value).replace('asn1Object.', 'asn1Spec.')
+        return out
+    pd_, pi_ = preamble(fd), preamble(fi)
+    ctx.ob('A6.spec', fi, 'record kind flags (namedTypes / isSetType / isDeterministic) are computed as in the definite-length loop',
+           pd_ == pi_ and len(pd_) == 3, 'definite: %s | indefinite: %s' % (pd_, pi_))
+
+    def reqtest(f):
+        return sorted(norm(n.test) for n in walk_own(f.node) if isinstance(n, ast.If) and 'requiredComponents' in norm(n.test))
+    ctx.ob('A6.spec', fi, 'required-components test is the same as in the definite-length loop', reqtest(fd) == reqtest(fi),
+           'definite: %s | indefinite: %s' % (reqtest(fd), reqtest(fi)))
     cd = _spec_chain(fd, recloop(fd), 'componentType')
     ci = _spec_chain(fi, recloop(fi), 'asn1Spec')
     if not cd or not ci:
